@@ -14,9 +14,13 @@ type Locker interface {
 type Mutex struct {
 	obj    *rt.Obj
 	locked bool
+	epoch  uint64
 }
 
 func (m *Mutex) o() *rt.Obj {
+	if m.epoch != rt.Epoch() {
+		*m = Mutex{epoch: rt.Epoch()} // left over from an earlier execution (package-level variable)
+	}
 	if m.obj == nil {
 		m.obj = rt.NewObj("mutex")
 	}
@@ -67,9 +71,13 @@ type RWMutex struct {
 	readers  int
 	writer   bool
 	wWaiting int
+	epoch    uint64
 }
 
 func (m *RWMutex) o() *rt.Obj {
+	if m.epoch != rt.Epoch() {
+		*m = RWMutex{epoch: rt.Epoch()}
+	}
 	if m.obj == nil {
 		m.obj = rt.NewObj("rwmutex")
 	}
@@ -82,7 +90,7 @@ func (m *RWMutex) Lock() {
 		m.wWaiting++
 		rt.Event(m.obj, "wannounce", 0, true)
 	})
-	rt.Do(m.obj, "Lock", func() bool { return !m.writer && m.readers == 0 }, func() {
+	rt.Do(m.o(), "Lock", func() bool { return !m.writer && m.readers == 0 }, func() {
 		m.wWaiting--
 		m.writer = true
 		rt.Event(m.obj, "wlock", 0, true)
@@ -132,9 +140,13 @@ type Once struct {
 	obj     *rt.Obj
 	started bool
 	done    bool
+	epoch   uint64
 }
 
 func (o *Once) Do(f func()) {
+	if o.epoch != rt.Epoch() {
+		*o = Once{epoch: rt.Epoch()}
+	}
 	if o.obj == nil {
 		o.obj = rt.NewObj("once")
 	}
@@ -161,11 +173,15 @@ func (o *Once) Do(f func()) {
 
 // WaitGroup mirrors sync.WaitGroup.
 type WaitGroup struct {
-	obj *rt.Obj
-	n   int
+	obj   *rt.Obj
+	n     int
+	epoch uint64
 }
 
 func (w *WaitGroup) o() *rt.Obj {
+	if w.epoch != rt.Epoch() {
+		*w = WaitGroup{epoch: rt.Epoch()}
+	}
 	if w.obj == nil {
 		w.obj = rt.NewObj("waitgroup")
 	}
@@ -187,5 +203,51 @@ func (w *WaitGroup) Done() { w.Add(-1) }
 func (w *WaitGroup) Wait() {
 	rt.Do(w.o(), "wg.Wait", func() bool { return w.n == 0 }, func() {
 		rt.Event(w.obj, "wgwait", 0, true)
+	})
+}
+
+// Pool mirrors sync.Pool as a deterministic LIFO store (the real pool may also
+// drop items at any time; keeping them is the behaviour in which reuse bugs show).
+type Pool struct {
+	New   func() interface{}
+	obj   *rt.Obj
+	items []interface{}
+	epoch uint64
+}
+
+func (p *Pool) o() *rt.Obj {
+	if p.epoch != rt.Epoch() {
+		p.obj, p.items, p.epoch = nil, nil, rt.Epoch()
+	}
+	if p.obj == nil {
+		p.obj = rt.NewObj("pool")
+	}
+	return p.obj
+}
+
+func (p *Pool) Get() interface{} {
+	var v interface{}
+	rt.Do(p.o(), "pool.Get", nil, func() {
+		if n := len(p.items); n > 0 {
+			v = p.items[n-1]
+			p.items = p.items[:n-1]
+			rt.Event(p.obj, "get-hit", uint64(n), true)
+			return
+		}
+		rt.Event(p.obj, "get-miss", 0, true)
+	})
+	if v == nil && p.New != nil {
+		v = p.New()
+	}
+	return v
+}
+
+func (p *Pool) Put(x interface{}) {
+	if x == nil {
+		return
+	}
+	rt.Do(p.o(), "pool.Put", nil, func() {
+		p.items = append(p.items, x)
+		rt.Event(p.obj, "put", uint64(len(p.items)), true)
 	})
 }
